@@ -536,17 +536,46 @@ def real_events(run: Run, per_curve: int) -> list[dict[str, Any]]:
                 pp = PreparedPoint(P, ec)
                 for k in scal[:: 3]:
                     evs.append({"op": "lin", "tag": tag, "fn": "PreparedPoint.mult", "c": c, "ks": [nat(k)], "ps": [pt(P)], "out": pt(pp.mult(k))})
-                for _ in range(max(2, reps // 3)):
-                    u, v = rnd.choice(scal), rnd.choice(scal)
-                    H, K = rnd.choice([ec.G, P, Q]), rnd.choice([ec.G, P, Q, (5, 0)])
-                    evs.append({"op": "lin", "tag": tag, "fn": "double_mult_var", "c": c, "ks": [nat(u), nat(v)], "ps": [pt(H), pt(K)],
-                                "out": pt(double_mult_var(u, H, v, K, ec))})
+                def answer(fn_name: str, thunk: Any) -> Any:
+                    """The point a call answers, {"refused": 1} for the library's refusal; anything else is reported and the event dropped."""
+                    from btclib.exceptions import BTClibException
+
+                    try:
+                        return pt(thunk())
+                    except BTClibException:
+                        return {"refused": 1}
+                    except Exception as e:  # noqa: BLE001
+                        run.violation(f"ec|real|{fn_name.split('[')[0]}|raised|{tag}|{type(e).__name__}", f"{fn_name} on {tag} raised {type(e).__name__}: {e}", {"op": fn_name, "curve": name})
+                        return None
+
+                # coefficients that are multiples of the order beside ones that are not, over points that are not infinity: the pairs a dispatch on "is it zero" must reduce first
+                pairs = [(ec.n, 3), (3, ec.n), (2 * ec.n, 5), (ec.n, ec.n), (ec.n, 0), (0, 2 * ec.n), (ec.n + 1, ec.n - 1), (-ec.n, 7), (7, -3 * ec.n)]
+                pairs += [(rnd.choice(scal), rnd.choice(scal)) for _ in range(max(2, reps // 3))]
+                for jj, (u, v) in enumerate(pairs):
+                    H, K = ([ec.G, P, Q][jj % 3], [P, Q, ec.G][jj % 3]) if jj < 9 else (rnd.choice([ec.G, P, Q]), rnd.choice([ec.G, P, Q, (5, 0)]))
+                    out = answer("double_mult_var", lambda: double_mult_var(u, H, v, K, ec))
+                    if out is not None:
+                        evs.append({"op": "lin", "tag": tag, "fn": "double_mult_var", "c": c, "ks": [nat(u % ec.n), nat(v % ec.n)], "ps": [pt(H), pt(K)], "out": out})
                 for t in ((2, 3, 57) if not big else (2, 3)):
                     us = [rnd.choice(scal[:9] + [rnd.randrange(ec.n)]) for _ in range(t)]
                     base = [ec.G, P, Q]
                     Ps = [rnd.choice(base) for _ in range(t)]
-                    evs.append({"op": "lin", "tag": tag, "fn": f"multi_mult_var[{t}]", "c": c, "ks": [nat(u) for u in us], "ps": [pt(q) for q in Ps],
-                                "out": pt(multi_mult_var(us, Ps, ec))})
+                    out = answer(f"multi_mult_var[{t}]", lambda: multi_mult_var(us, Ps, ec))
+                    if out is not None:
+                        evs.append({"op": "lin", "tag": tag, "fn": f"multi_mult_var[{t}]", "c": c, "ks": [nat(u) for u in us], "ps": [pt(q) for q in Ps], "out": out})
+                # a point that is not on the curve is refused whatever its own scalar is -- zero, the order, a multiple of it, or anything else -- and wherever it stands
+                off = (P[0], (P[1] + 1) % ec.p)
+                for k_off in (0, ec.n, 2 * ec.n, 1, ec.n - 1):
+                    for where in (0, 1, 2):
+                        us = [2, 3, 5]
+                        Ps = [ec.G, P, Q]
+                        us[where], Ps[where] = k_off, off
+                        for fn_name, thunk in ((f"multi_mult_var[3]", lambda: multi_mult_var(us, Ps, ec)),) + (((f"double_mult_var", lambda: double_mult_var(us[0], Ps[0], us[1], Ps[1], ec)),) if where < 2 else ()):
+                            out = answer(fn_name, thunk)
+                            nterm = 3 if fn_name.startswith("multi") else 2
+                            if out is not None:
+                                evs.append({"op": "lin", "tag": tag, "fn": fn_name + " (a point off the curve)", "c": c, "ks": [nat(u % ec.n) for u in us[:nterm]],
+                                            "ps": [{"x": nat(q[0]), "y": nat(q[1])} for q in Ps[:nterm]], "out": out})
                 for comp in (True, False):
                     evs.append({"op": "sec", "tag": tag, "c": c, "P": pt(P), "comp": comp, "out": bytes_from_point(P, ec, comp).hex()})
     finally:
@@ -682,7 +711,10 @@ def caller_defined_events(run: Run, rnd: random.Random, thorough: bool) -> list[
 
     for t in candidate_tuples(rnd, thorough):
         variants = [("as found", {}), ("cofactor + 1", {"h": t["h"] + 1}), ("n replaced by a multiple", {"n": t["n"] * 2}),
-                    ("G not on the curve", {"G": (t["G"][0], (t["G"][1] + 1) % t["p"])}), ("b + 1", {"b": (t["b"] + 1) % t["p"]})]
+                    ("G not on the curve", {"G": (t["G"][0], (t["G"][1] + 1) % t["p"])}), ("b + 1", {"b": (t["b"] + 1) % t["p"]}),
+                    # the generator spelled as the point at infinity in each of its spellings (any x over y = 0), not only the constant the library names
+                    ("G = (x_G, 0)", {"G": (t["G"][0], 0)}), ("G = (1, 0)", {"G": (1, 0)}), ("G = (0, 0)", {"G": (0, 0)}), ("G = (5, 0)", {"G": (5, 0)}),
+                    ("G = (x_G, p - y_G)", {"G": (t["G"][0], t["p"] - t["G"][1])}), ("G = (x_G + p, y_G)", {"G": (t["G"][0] + t["p"], t["G"][1])}), ("n = 1", {"n": 1})]
         for vlabel, over in variants:
             d = {**t, **over}
             if d["h"] < 1:
